@@ -274,3 +274,131 @@ Definition rd_features : list str := [
   [108%N; 112%N; 121%N; 51%N; 49%N; 51%N; 45%N];
   [108%N; 112%N; 121%N; 51%N; 49%N; 52%N; 45%N]
 ].
+
+(* ---- C05 (harness/tr/tr_equality.py) ---- *)
+Definition c05_eq_hash_classes : list str := [
+  [105%N; 110%N; 116%N; 101%N; 114%N; 102%N; 97%N; 99%N; 101%N; 115%N; 46%N; 112%N; 121%N; 58%N; 73%N; 83%N; 101%N; 113%N; 46%N; 95%N; 95%N; 101%N; 113%N; 95%N; 95%N] (* interfaces.py:ISeq.__eq__ *);
+  [105%N; 110%N; 116%N; 101%N; 114%N; 102%N; 97%N; 99%N; 101%N; 115%N; 46%N; 112%N; 121%N; 58%N; 73%N; 83%N; 101%N; 113%N; 46%N; 95%N; 95%N; 104%N; 97%N; 115%N; 104%N; 95%N; 95%N] (* interfaces.py:ISeq.__hash__ *);
+  [107%N; 101%N; 121%N; 119%N; 111%N; 114%N; 100%N; 46%N; 112%N; 121%N; 58%N; 75%N; 101%N; 121%N; 119%N; 111%N; 114%N; 100%N; 46%N; 95%N; 95%N; 101%N; 113%N; 95%N; 95%N] (* keyword.py:Keyword.__eq__ *);
+  [107%N; 101%N; 121%N; 119%N; 111%N; 114%N; 100%N; 46%N; 112%N; 121%N; 58%N; 75%N; 101%N; 121%N; 119%N; 111%N; 114%N; 100%N; 46%N; 95%N; 95%N; 104%N; 97%N; 115%N; 104%N; 95%N; 95%N] (* keyword.py:Keyword.__hash__ *);
+  [108%N; 105%N; 115%N; 116%N; 46%N; 112%N; 121%N; 58%N; 80%N; 101%N; 114%N; 115%N; 105%N; 115%N; 116%N; 101%N; 110%N; 116%N; 76%N; 105%N; 115%N; 116%N; 46%N; 95%N; 95%N; 104%N; 97%N; 115%N; 104%N; 95%N; 95%N] (* list.py:PersistentList.__hash__ *);
+  [109%N; 97%N; 112%N; 46%N; 112%N; 121%N; 58%N; 80%N; 101%N; 114%N; 115%N; 105%N; 115%N; 116%N; 101%N; 110%N; 116%N; 77%N; 97%N; 112%N; 46%N; 95%N; 95%N; 101%N; 113%N; 95%N; 95%N] (* map.py:PersistentMap.__eq__ *);
+  [109%N; 97%N; 112%N; 46%N; 112%N; 121%N; 58%N; 80%N; 101%N; 114%N; 115%N; 105%N; 115%N; 116%N; 101%N; 110%N; 116%N; 77%N; 97%N; 112%N; 46%N; 95%N; 95%N; 104%N; 97%N; 115%N; 104%N; 95%N; 95%N] (* map.py:PersistentMap.__hash__ *);
+  [109%N; 97%N; 112%N; 46%N; 112%N; 121%N; 58%N; 84%N; 114%N; 97%N; 110%N; 115%N; 105%N; 101%N; 110%N; 116%N; 77%N; 97%N; 112%N; 46%N; 95%N; 95%N; 101%N; 113%N; 95%N; 95%N] (* map.py:TransientMap.__eq__ *);
+  [113%N; 117%N; 101%N; 117%N; 101%N; 46%N; 112%N; 121%N; 58%N; 80%N; 101%N; 114%N; 115%N; 105%N; 115%N; 116%N; 101%N; 110%N; 116%N; 81%N; 117%N; 101%N; 117%N; 101%N; 46%N; 95%N; 95%N; 101%N; 113%N; 95%N; 95%N] (* queue.py:PersistentQueue.__eq__ *);
+  [113%N; 117%N; 101%N; 117%N; 101%N; 46%N; 112%N; 121%N; 58%N; 80%N; 101%N; 114%N; 115%N; 105%N; 115%N; 116%N; 101%N; 110%N; 116%N; 81%N; 117%N; 101%N; 117%N; 101%N; 46%N; 95%N; 95%N; 104%N; 97%N; 115%N; 104%N; 95%N; 95%N] (* queue.py:PersistentQueue.__hash__ *);
+  [115%N; 101%N; 116%N; 46%N; 112%N; 121%N; 58%N; 80%N; 101%N; 114%N; 115%N; 105%N; 115%N; 116%N; 101%N; 110%N; 116%N; 83%N; 101%N; 116%N; 46%N; 95%N; 95%N; 101%N; 113%N; 95%N; 95%N] (* set.py:PersistentSet.__eq__ *);
+  [115%N; 101%N; 116%N; 46%N; 112%N; 121%N; 58%N; 80%N; 101%N; 114%N; 115%N; 105%N; 115%N; 116%N; 101%N; 110%N; 116%N; 83%N; 101%N; 116%N; 46%N; 95%N; 95%N; 104%N; 97%N; 115%N; 104%N; 95%N; 95%N] (* set.py:PersistentSet.__hash__ *);
+  [115%N; 101%N; 116%N; 46%N; 112%N; 121%N; 58%N; 84%N; 114%N; 97%N; 110%N; 115%N; 105%N; 101%N; 110%N; 116%N; 83%N; 101%N; 116%N; 46%N; 95%N; 95%N; 101%N; 113%N; 95%N; 95%N] (* set.py:TransientSet.__eq__ *);
+  [115%N; 121%N; 109%N; 98%N; 111%N; 108%N; 46%N; 112%N; 121%N; 58%N; 83%N; 121%N; 109%N; 98%N; 111%N; 108%N; 46%N; 95%N; 95%N; 101%N; 113%N; 95%N; 95%N] (* symbol.py:Symbol.__eq__ *);
+  [115%N; 121%N; 109%N; 98%N; 111%N; 108%N; 46%N; 112%N; 121%N; 58%N; 83%N; 121%N; 109%N; 98%N; 111%N; 108%N; 46%N; 95%N; 95%N; 104%N; 97%N; 115%N; 104%N; 95%N; 95%N] (* symbol.py:Symbol.__hash__ *);
+  [118%N; 101%N; 99%N; 116%N; 111%N; 114%N; 46%N; 112%N; 121%N; 58%N; 80%N; 101%N; 114%N; 115%N; 105%N; 115%N; 116%N; 101%N; 110%N; 116%N; 86%N; 101%N; 99%N; 116%N; 111%N; 114%N; 46%N; 95%N; 95%N; 101%N; 113%N; 95%N; 95%N] (* vector.py:PersistentVector.__eq__ *);
+  [118%N; 101%N; 99%N; 116%N; 111%N; 114%N; 46%N; 112%N; 121%N; 58%N; 80%N; 101%N; 114%N; 115%N; 105%N; 115%N; 116%N; 101%N; 110%N; 116%N; 86%N; 101%N; 99%N; 116%N; 111%N; 114%N; 46%N; 95%N; 95%N; 104%N; 97%N; 115%N; 104%N; 95%N; 95%N] (* vector.py:PersistentVector.__hash__ *);
+  [118%N; 101%N; 99%N; 116%N; 111%N; 114%N; 46%N; 112%N; 121%N; 58%N; 84%N; 114%N; 97%N; 110%N; 115%N; 105%N; 101%N; 110%N; 116%N; 86%N; 101%N; 99%N; 116%N; 111%N; 114%N; 46%N; 95%N; 95%N; 101%N; 113%N; 95%N; 95%N] (* vector.py:TransientVector.__eq__ *)
+].
+Definition c05_vec_hash_family : N := 1%N. (* PersistentVector.__hash__: return hash(tuple(self._inner)) *)
+Definition c05_list_hash_family : N := 1%N. (* PersistentList.__hash__: return hash(self._inner) *)
+Definition c05_queue_hash_family : N := 1%N. (* PersistentQueue.__hash__: return hash(self._inner) *)
+Definition c05_iseq_hash_family : N := 1%N. (* ISeq.__hash__: return hash(tuple(self)) *)
+Definition c05_seq_equals_shape : N := 1%N.
+Definition c05_iseq_eq_shape : N := 1%N.
+Definition c05_vec_eq_shape : N := 1%N.
+Definition c05_queue_eq_shape : N := 1%N.
+Definition c05_map_eq_shape : N := 1%N.
+Definition c05_set_eq_shape : N := 1%N.
+Definition c05_kw_eq_shape : N := 1%N.
+Definition c05_sym_eq_shape : N := 1%N.
+Definition c05_equals_shape : N := 1%N.
+Definition c05_core_eq_shape : N := 1%N.
+Definition c05_record_eq_shape : N := 1%N.
+
+(* ---- C03 (harness/tr/tr_printer.py): copies of what the translator emits for the repaired tree ---- *)
+Definition pr_str_escapes : list (N * str) := [(34%N, [92%N; 34%N]); (92%N, [92%N; 92%N]); (7%N, [92%N; 97%N]); (8%N, [92%N; 98%N]); (12%N, [92%N; 102%N]); (10%N, [92%N; 110%N]); (13%N, [92%N; 114%N]); (9%N, [92%N; 116%N]); (11%N, [92%N; 118%N])].
+Definition pr_delims : list (str * (str * str)) := [
+  ([80%N; 101%N; 114%N; 115%N; 105%N; 115%N; 116%N; 101%N; 110%N; 116%N; 76%N; 105%N; 115%N; 116%N], ([40%N], [41%N])) (* PersistentList *);
+  ([80%N; 101%N; 114%N; 115%N; 105%N; 115%N; 116%N; 101%N; 110%N; 116%N; 86%N; 101%N; 99%N; 116%N; 111%N; 114%N], ([91%N], [93%N])) (* PersistentVector *);
+  ([80%N; 101%N; 114%N; 115%N; 105%N; 115%N; 116%N; 101%N; 110%N; 116%N; 83%N; 101%N; 116%N], ([35%N; 123%N], [125%N])) (* PersistentSet *);
+  ([80%N; 101%N; 114%N; 115%N; 105%N; 115%N; 116%N; 101%N; 110%N; 116%N; 81%N; 117%N; 101%N; 117%N; 101%N], ([35%N; 113%N; 117%N; 101%N; 117%N; 101%N; 32%N; 40%N], [41%N])) (* PersistentQueue *);
+  ([80%N; 101%N; 114%N; 115%N; 105%N; 115%N; 116%N; 101%N; 110%N; 116%N; 77%N; 97%N; 112%N], ([123%N], [125%N])) (* PersistentMap *);
+  ([95%N; 108%N; 114%N; 101%N; 112%N; 114%N; 95%N; 112%N; 121%N; 95%N; 108%N; 105%N; 115%N; 116%N], ([35%N; 112%N; 121%N; 32%N; 91%N], [93%N])) (* _lrepr_py_list *);
+  ([95%N; 108%N; 114%N; 101%N; 112%N; 114%N; 95%N; 112%N; 121%N; 95%N; 116%N; 117%N; 112%N; 108%N; 101%N], ([35%N; 112%N; 121%N; 32%N; 40%N], [41%N])) (* _lrepr_py_tuple *);
+  ([95%N; 108%N; 114%N; 101%N; 112%N; 114%N; 95%N; 112%N; 121%N; 95%N; 115%N; 101%N; 116%N], ([35%N; 112%N; 121%N; 32%N; 35%N; 123%N], [125%N])) (* _lrepr_py_set *);
+  ([95%N; 108%N; 114%N; 101%N; 112%N; 114%N; 95%N; 112%N; 121%N; 95%N; 100%N; 105%N; 99%N; 116%N], ([35%N; 112%N; 121%N; 32%N; 123%N], [125%N])) (* _lrepr_py_dict *)
+].
+Definition pr_fstrings : list (str * list str) := [
+  ([95%N; 108%N; 114%N; 101%N; 112%N; 114%N; 95%N; 98%N; 121%N; 116%N; 101%N; 115%N], [[35%N; 98%N; 32%N; 34%N]; [34%N]]) (* _lrepr_bytes *);
+  ([95%N; 108%N; 114%N; 101%N; 112%N; 114%N; 95%N; 100%N; 97%N; 116%N; 101%N; 116%N; 105%N; 109%N; 101%N], [[35%N; 105%N; 110%N; 115%N; 116%N; 32%N; 34%N]; [34%N]]) (* _lrepr_datetime *);
+  ([95%N; 108%N; 114%N; 101%N; 112%N; 114%N; 95%N; 117%N; 117%N; 105%N; 100%N], [[35%N; 117%N; 117%N; 105%N; 100%N; 32%N; 34%N]; [34%N]]) (* _lrepr_uuid *);
+  ([95%N; 108%N; 114%N; 101%N; 112%N; 114%N; 95%N; 112%N; 97%N; 116%N; 116%N; 101%N; 114%N; 110%N], [[35%N; 34%N]; [34%N]]) (* _lrepr_pattern *);
+  ([95%N; 108%N; 114%N; 101%N; 112%N; 114%N; 95%N; 102%N; 114%N; 97%N; 99%N; 116%N; 105%N; 111%N; 110%N], [(@nil N); [47%N]; (@nil N)]) (* _lrepr_fraction *);
+  ([95%N; 108%N; 114%N; 101%N; 112%N; 114%N; 95%N; 100%N; 101%N; 99%N; 105%N; 109%N; 97%N; 108%N], [(@nil N); [77%N]]) (* _lrepr_decimal *)
+].
+Definition pr_special_floats : list str := [[35%N; 35%N; 73%N; 110%N; 102%N]; [35%N; 35%N; 45%N; 73%N; 110%N; 102%N]; [35%N; 35%N; 78%N; 97%N; 78%N]]. (* +inf, -inf, nan *)
+Definition pr_separators : str * str := ([32%N], [44%N; 32%N]).
+Definition pr_lrepr_types : list str := [
+  [68%N; 101%N; 99%N; 105%N; 109%N; 97%N; 108%N] (* Decimal *);
+  [70%N; 114%N; 97%N; 99%N; 116%N; 105%N; 111%N; 110%N] (* Fraction *);
+  [76%N; 105%N; 115%N; 112%N; 79%N; 98%N; 106%N; 101%N; 99%N; 116%N] (* LispObject *);
+  [80%N; 97%N; 116%N; 104%N] (* Path *);
+  [98%N; 111%N; 111%N; 108%N] (* bool *);
+  [98%N; 121%N; 116%N; 101%N; 115%N] (* bytes *);
+  [99%N; 111%N; 109%N; 112%N; 108%N; 101%N; 120%N] (* complex *);
+  [100%N; 97%N; 116%N; 101%N; 116%N; 105%N; 109%N; 101%N; 46%N; 100%N; 97%N; 116%N; 101%N; 116%N; 105%N; 109%N; 101%N] (* datetime.datetime *);
+  [100%N; 105%N; 99%N; 116%N] (* dict *);
+  [102%N; 108%N; 111%N; 97%N; 116%N] (* float *);
+  [108%N; 105%N; 115%N; 116%N] (* list *);
+  [115%N; 101%N; 116%N] (* set *);
+  [115%N; 116%N; 114%N] (* str *);
+  [116%N; 117%N; 112%N; 108%N; 101%N] (* tuple *);
+  [116%N; 121%N; 112%N; 101%N; 40%N; 78%N; 111%N; 110%N; 101%N; 41%N] (* type(None) *);
+  [116%N; 121%N; 112%N; 101%N; 40%N; 114%N; 101%N; 46%N; 99%N; 111%N; 109%N; 112%N; 105%N; 108%N; 101%N; 40%N; 39%N; 39%N; 41%N; 41%N] (* type(re.compile('')) *);
+  [117%N; 117%N; 105%N; 100%N; 46%N; 85%N; 85%N; 73%N; 68%N] (* uuid.UUID *)
+].
+Definition pr_print_defaults : list (str * N) := [([80%N; 82%N; 73%N; 78%N; 84%N; 95%N; 68%N; 85%N; 80%N], 0%N); ([80%N; 82%N; 73%N; 78%N; 84%N; 95%N; 76%N; 69%N; 78%N; 71%N; 84%N; 72%N], 0%N); ([80%N; 82%N; 73%N; 78%N; 84%N; 95%N; 76%N; 69%N; 86%N; 69%N; 76%N], 0%N); ([80%N; 82%N; 73%N; 78%N; 84%N; 95%N; 77%N; 69%N; 84%N; 65%N], 0%N); ([80%N; 82%N; 73%N; 78%N; 84%N; 95%N; 78%N; 65%N; 77%N; 69%N; 83%N; 80%N; 65%N; 67%N; 69%N; 95%N; 77%N; 65%N; 80%N; 83%N], 0%N); ([80%N; 82%N; 73%N; 78%N; 84%N; 95%N; 82%N; 69%N; 65%N; 68%N; 65%N; 66%N; 76%N; 89%N], 1%N)].
+
+(* ---- C06 (harness/tr/tr_lazyseq.py): copies of what the translator emits for the working tree ---- *)
+(* seq.rs: the four-state enum, the transcribed LazySeq::seq / Sequence::__call__ / SeqIterator::__next__ / to_seq *)
+Definition lazyseq_state_shape : N := 1%N.
+Definition lazyseq_seq_shape : N := 1%N.
+Definition lazyseq_sequence_shape : N := 1%N.
+(* _compute_seq stores Initialized(gen) again when the generator raises (after repair F-06b) *)
+Definition lazyseq_restore_on_error : bool := true.
+(* blocking self.lock.lock() with the GIL held, no allow_threads anywhere in seq.rs (open finding F-06) *)
+Definition lazyseq_lock_keeps_gil : bool := true.
+
+(* ---- C09 (harness/tr/tr_syntaxquote.py): copies of what the translator emits for the pinned tree ---- *)
+Definition sq_special_forms : list str :=
+  [[97%N; 119%N; 97%N; 105%N; 116%N];
+   [99%N; 97%N; 116%N; 99%N; 104%N];
+   [100%N; 101%N; 102%N];
+   [100%N; 101%N; 102%N; 116%N; 121%N; 112%N; 101%N; 42%N];
+   [100%N; 111%N];
+   [102%N; 105%N; 110%N; 97%N; 108%N; 108%N; 121%N];
+   [102%N; 110%N; 42%N];
+   [105%N; 102%N];
+   [105%N; 109%N; 112%N; 111%N; 114%N; 116%N; 42%N];
+   [46%N];
+   [46%N; 45%N];
+   [108%N; 101%N; 116%N; 42%N];
+   [108%N; 101%N; 116%N; 102%N; 110%N; 42%N];
+   [108%N; 111%N; 111%N; 112%N; 42%N];
+   [113%N; 117%N; 111%N; 116%N; 101%N];
+   [114%N; 101%N; 99%N; 117%N; 114%N];
+   [114%N; 101%N; 105%N; 102%N; 121%N; 42%N];
+   [114%N; 101%N; 113%N; 117%N; 105%N; 114%N; 101%N; 42%N];
+   [115%N; 101%N; 116%N; 33%N];
+   [116%N; 104%N; 114%N; 111%N; 119%N];
+   [116%N; 114%N; 121%N];
+   [118%N; 97%N; 114%N];
+   [121%N; 105%N; 101%N; 108%N; 100%N]].
+Definition sq_builders : list (str * str) :=
+  [([98%N; 97%N; 115%N; 105%N; 108%N; 105%N; 115%N; 112%N; 46%N; 99%N; 111%N; 114%N; 101%N], [115%N; 101%N; 113%N]);
+   ([98%N; 97%N; 115%N; 105%N; 108%N; 105%N; 115%N; 112%N; 46%N; 99%N; 111%N; 114%N; 101%N], [99%N; 111%N; 110%N; 99%N; 97%N; 116%N]);
+   ([98%N; 97%N; 115%N; 105%N; 108%N; 105%N; 115%N; 112%N; 46%N; 99%N; 111%N; 114%N; 101%N], [108%N; 105%N; 115%N; 116%N]);
+   ([98%N; 97%N; 115%N; 105%N; 108%N; 105%N; 115%N; 112%N; 46%N; 99%N; 111%N; 114%N; 101%N], [97%N; 112%N; 112%N; 108%N; 121%N]);
+   ([98%N; 97%N; 115%N; 105%N; 108%N; 105%N; 115%N; 112%N; 46%N; 99%N; 111%N; 114%N; 101%N], [118%N; 101%N; 99%N; 116%N; 111%N; 114%N]);
+   ([98%N; 97%N; 115%N; 105%N; 108%N; 105%N; 115%N; 112%N; 46%N; 99%N; 111%N; 114%N; 101%N], [104%N; 97%N; 115%N; 104%N; 45%N; 109%N; 97%N; 112%N]);
+   ([98%N; 97%N; 115%N; 105%N; 108%N; 105%N; 115%N; 112%N; 46%N; 99%N; 111%N; 114%N; 101%N], [104%N; 97%N; 115%N; 104%N; 45%N; 115%N; 101%N; 116%N]);
+   ((@nil N), [113%N; 117%N; 111%N; 116%N; 101%N])].
+Definition sq_resolve_shape : N := 1%N.
+Definition sq_expand_shape : N := 1%N.
